@@ -76,7 +76,7 @@ pub fn response_fill_units(rng: &mut Rng, m: &Model, target: usize) -> Option<Ms
         let j = rng.below(i + 1);
         units.swap(i, j);
     }
-    Some(Msg { units, semi: false, lead: vec![] })
+    Some(Msg { units, semi: false, lead: vec![], trail: vec![] })
 }
 
 pub fn response_fill_msg(rng: &mut Rng, m: &Model, target: usize) -> Option<Vec<u8>> {
